@@ -1,5 +1,7 @@
 use crate::common::*;
 
+pub mod c01;
+pub mod c02;
 pub mod c03;
 pub mod c17;
 pub mod c18;
@@ -7,6 +9,8 @@ pub mod c19;
 
 pub fn dispatch(ctx: &Ctx, replay: Option<String>) -> ! {
     match ctx.id.as_str() {
+        "C01" => c01::run(ctx, replay),
+        "C02" => c02::run(ctx, replay),
         "C03" => c03::run(ctx, replay),
         "C17" => c17::run(ctx, replay),
         "C18" => c18::run(ctx, replay),
